@@ -1,3 +1,5 @@
+//go:build verif
+
 package pd6
 
 import (
@@ -109,6 +111,20 @@ func genMsg(t *rapid.T, mode string, nclients int, later bool) Msg {
 		m.Repeat = true
 		return m
 	}
+	if later && rapid.IntRange(0, 11).Draw(t, "age") == 0 {
+		return Msg{Age: rapid.SampledFrom([]int{1, 1800, 3599, 3601, 7200, 90000}).Draw(t, "age-s")}
+	}
+	if later && rapid.IntRange(0, 29).Draw(t, "many-hints") == 0 {
+		// one IA_PD with more hints than fit any machine word: renewal shapes only, so that
+		// a retransmission must not consume anything
+		ia := IAPD{IAID: 1}
+		n := rapid.IntRange(65, 70).Draw(t, "nhints-many")
+		for i := 0; i < n; i++ {
+			ia.Hints = append(ia.Hints, Hint{Kind: "self", K: rapid.Uint64Range(0, 8).Draw(t, "self-k")})
+		}
+		m.IAPDs = []IAPD{ia}
+		return m
+	}
 	n := rapid.SampledFrom([]int{1, 1, 1, 1, 2, 2, 3, 0}).Draw(t, "niapd")
 	for i := 0; i < n; i++ {
 		m.IAPDs = append(m.IAPDs, genIAPD(t, mode, i, later && mode == "C09"))
@@ -159,7 +175,12 @@ func GenCase(mode string) func(t *rapid.T) Case {
 		}
 		n := rapid.IntRange(1, max).Draw(t, "nmsgs")
 		for i := 0; i < n; i++ {
-			c.Msgs = append(c.Msgs, genMsg(t, mode, nclients, i >= 1))
+			msg := genMsg(t, mode, nclients, i >= 1)
+			c.Msgs = append(c.Msgs, msg)
+			if len(msg.IAPDs) == 1 && len(msg.IAPDs[0].Hints) > 64 {
+				// and its retransmission
+				c.Msgs = append(c.Msgs, Msg{Client: msg.Client, Type: msg.Type, Repeat: true})
+			}
 		}
 		if mode == "C08" && rapid.IntRange(0, 4).Draw(t, "conc") == 0 {
 			g := rapid.IntRange(2, 6).Draw(t, "goroutines")
